@@ -8,7 +8,7 @@ import os
 import re
 import sys
 
-from rustlex import (lex, match_map, scan_items, find_item, strip_comments, Unsupported, norm, cfg_ok)
+from rustlex import (lex, match_map, scan_items, find_item, strip_comments, Unsupported, norm, cfg_ok, angle_close)
 import lower
 
 REPO = os.environ.get("VERIF_REPO", "/repo")
@@ -203,8 +203,42 @@ def drop_fn_generics(sig):
 
 
 def apply_rules(text, rules):
-    for pat, repl in rules:
+    for r in rules:
+        if callable(r):
+            text = r(text)
+            continue
+        pat, repl = r
         text = re.sub(pat, repl, text, flags=re.S)
+    return text
+
+
+def pub_tuple_fields(text):
+    """`struct S(A, B);` -> `struct S(pub A, pub B);` (fields made visible to spec functions)"""
+    toks = lex(text)
+    mm = match_map(toks)
+    for i, t in enumerate(toks):
+        if t.text == "struct":
+            k = i + 2
+            if toks[k].text == "<":
+                k = angle_close(toks, k) + 1
+            if toks[k].text != "(":
+                return text
+            a, b = toks[k].end, toks[mm[k]].start
+            inner = text[a:b]
+            parts, depth, cur = [], 0, []
+            for ch in inner:
+                if ch in "<([{":
+                    depth += 1
+                elif ch in ">)]}":
+                    depth -= 1
+                if ch == "," and depth == 0:
+                    parts.append("".join(cur)); cur = []
+                else:
+                    cur.append(ch)
+            if "".join(cur).strip():
+                parts.append("".join(cur))
+            parts = [("pub " + p.strip()) if not p.strip().startswith("pub") else p.strip() for p in parts if p.strip()]
+            return text[:a] + ", ".join(parts) + text[b:]
     return text
 
 
@@ -309,6 +343,10 @@ class Emitted:
         return "\n".join(self.lines) + "\n"
 
 
+def relp(path):
+    return os.path.relpath(path, REPO) if path.startswith(REPO) else ("<rustc -Zunpretty=expanded of /repo>/" + os.path.basename(path))
+
+
 def splice_fn(it_spec, item, contract, unit, em, extraction, active=None, features=()):
     """emit one function"""
     key = it_spec["key"]
@@ -364,7 +402,7 @@ def splice_fn(it_spec, item, contract, unit, em, extraction, active=None, featur
     # ---- emit
     a, b = item.line_span()
     h = hashlib.sha256(item.text.encode()).hexdigest()[:16]
-    em.add("// ---- %s  <- %s:%d-%d sha256:%s rules:%s" % (key, os.path.relpath(item.path, REPO), a, b, h,
+    em.add("// ---- %s  <- %s:%d-%d sha256:%s rules:%s" % (key, relp(item.path), a, b, h,
                                                          ",".join(sorted(set(r for r, _ in log))) or "-"), item=key, part="header")
     em.add(sig.rstrip(), item=key, part="sig")
     if contract is not None:
@@ -423,7 +461,7 @@ def splice_fn(it_spec, item, contract, unit, em, extraction, active=None, featur
         em.add(";", item=key, part="sig")
     else:
         emit_body(body, key, em)
-    extraction.append(dict(key=key, file=os.path.relpath(item.path, REPO), lines=[a, b], sha256=h, inactive=bool(it_spec.get("_inactive")),
+    extraction.append(dict(key=key, file=relp(item.path), lines=[a, b], sha256=h, inactive=bool(it_spec.get("_inactive")),
                            rules=[dict(rule=r, original=o) for r, o in log]))
 
 
@@ -594,9 +632,9 @@ def emit_plain(it_spec, item, unit, em, extraction, features=()):
     text = apply_rules(text, unit.get("type_rules", []))
     a, b = item.line_span()
     h = hashlib.sha256(item.text.encode()).hexdigest()[:16]
-    em.add("// ---- %s  <- %s:%d-%d sha256:%s" % (key, os.path.relpath(item.path, REPO), a, b, h), item=key, part="header")
+    em.add("// ---- %s  <- %s:%d-%d sha256:%s" % (key, relp(item.path), a, b, h), item=key, part="header")
     em.add(text.strip(), item=key, part="decl")
-    extraction.append(dict(key=key, file=os.path.relpath(item.path, REPO), lines=[a, b], sha256=h, rules=[]))
+    extraction.append(dict(key=key, file=relp(item.path), lines=[a, b], sha256=h, rules=[]))
 
 
 def unit_attrs(unit_dir):
@@ -606,6 +644,50 @@ def unit_attrs(unit_dir):
 
 _UNIT_ATTRS = {}
 _cache = {}
+VERIF = os.path.dirname(os.path.dirname(os.path.abspath(__file__)))
+
+
+def tree_hash(paths):
+    h = hashlib.sha256()
+    for root in paths:
+        if os.path.isfile(root):
+            h.update(open(root, "rb").read())
+            continue
+        for d, _, fs in sorted(os.walk(root)):
+            for f in sorted(fs):
+                if f.endswith(".rs") or f.endswith(".toml"):
+                    h.update(os.path.join(d, f).encode())
+                    h.update(open(os.path.join(d, f), "rb").read())
+    return h.hexdigest()[:16]
+
+
+def ensure_expanded(extra_example=None):
+    """macro-generated code is taken from the compiler: `cargo +nightly rustc --lib -- -Zunpretty=expanded` on a scratch
+    copy of /repo's working tree (rule (e) of DESIGN.md 3.2); cached per source-tree hash under build/expanded/"""
+    import subprocess, shutil
+    key = tree_hash([os.path.join(REPO, "src"), os.path.join(REPO, "shred-derive", "src"), os.path.join(REPO, "Cargo.toml")] + ([extra_example] if extra_example else []))
+    outdir = os.path.join(VERIF, "build", "expanded")
+    os.makedirs(outdir, exist_ok=True)
+    out = os.path.join(outdir, ("lib-" if not extra_example else "ex-") + key + ".rs")
+    if os.path.exists(out) and os.path.getsize(out) > 0:
+        return out
+    scratch = "/var/tmp/shred-verif.%d" % os.getpid()
+    shutil.rmtree(scratch, ignore_errors=True)
+    try:
+        subprocess.run(["rsync", "-a", "--exclude", "target", "--exclude", ".git", REPO + "/", scratch + "/"], check=True)
+        env = dict(os.environ, CARGO_TARGET_DIR=os.path.join(VERIF, "build", "exp-target"), CARGO_NET_OFFLINE="true")
+        if extra_example:
+            shutil.copy(extra_example, os.path.join(scratch, "examples", "vx_derive_samples.rs"))
+            cmd = ["cargo", "+nightly", "rustc", "--offline", "--example", "vx_derive_samples", "--", "-Zunpretty=expanded"]
+        else:
+            cmd = ["cargo", "+nightly", "rustc", "--lib", "--offline", "--", "-Zunpretty=expanded"]
+        p = subprocess.run(cmd, cwd=scratch, env=env, stdout=subprocess.PIPE, stderr=subprocess.PIPE, text=True)
+        if p.returncode != 0 or not p.stdout.strip():
+            raise Unsupported("macro expansion by rustc failed: %s" % p.stderr[-400:])
+        open(out, "w").write(p.stdout)
+    finally:
+        shutil.rmtree(scratch, ignore_errors=True)
+    return out
 
 
 def items_of(path):
@@ -663,7 +745,12 @@ def generate(unit_dir, features=("parallel", "shred-derive"), mode="T", active=N
                 cur_owner = None
             em.add(select_mode(it_spec["text"], mode, features, active), part="lib")
             continue
-        path = os.path.join(REPO, it_spec["file"])
+        if it_spec["file"] == "@expanded":
+            path = ensure_expanded()
+        elif it_spec["file"] == "@derive_samples":
+            path = ensure_expanded(os.path.join(unit_dir, unit["derive_samples"]))
+        else:
+            path = os.path.join(REPO, it_spec["file"])
         items = items_of(path)
         try:
             item = find_item(items, it_spec["kind"], it_spec["name"], it_spec.get("owner"), cfg=set(features), nth=it_spec.get("nth", 0))
